@@ -638,7 +638,12 @@ func AuthResponseFormPost(res http.ResponseWriter, redirectURI string, response 
 }
 
 func setFragment(uri *url.URL, params url.Values) string {
-	uri.Fragment = params.Encode()
+	// the encoded parameters are the escaped form of the fragment:
+	// set as Fragment only, String() would escape them a second time
+	encoded := params.Encode()
+	fragment, _ := url.PathUnescape(encoded)
+	uri.Fragment = fragment
+	uri.RawFragment = encoded
 	return uri.String()
 }
 
